@@ -7,7 +7,7 @@ the chain may contain what the data oracles cannot judge (window functions witho
 whose values depend on the scan order).  The Polars replica runs the same verbs (lazily, no
 export) to establish that the pipeline is an *accepted* one.
 
-chain item     {"v": "win", "f": "shift"|"rown", "a": name, "pb": [name], "ar": bool}
+chain item     {"v": "win", "f": "shift"|"rown", "a": name, "pb": [name], "ar": bool, "wrap": fn|None, "fill": bool}
                {"v": "mutate", "a": name, "k": int}
                {"v": "select", "cols": [name]}
                {"v": "alias"}
@@ -42,7 +42,29 @@ class CqProbeMixin:
                 kw["partition_by"] = [C[n] for n in item["pb"]]
             if item.get("ar"):
                 kw["arrange"] = [C[item["a"]]]
-            e = C[item["a"]].shift(1, **kw) if item["f"] == "shift" else pdt.row_number(**kw)
+            if item["f"] == "shift":
+                x = C[item["a"]]
+                w = item.get("wrap")
+                # the shifted value is itself computed by a function (the SQL type of the compiled
+                # expression is then whatever the function call declares)
+                if w == "abs":
+                    x = x.abs()
+                elif w == "neg":
+                    x = -x
+                elif w == "hmax":
+                    x = pdt.max(x, 1)
+                elif w == "hmin":
+                    x = pdt.min(x, 1)
+                elif w == "floor":
+                    x = x.cast(pdt.Float64()).floor()
+                elif w == "exp":
+                    x = x.cast(pdt.Float64()).exp()
+                if item.get("fill"):
+                    e = x.shift(1, 0.0 if w in ("floor", "exp") else 0, **kw)
+                else:
+                    e = x.shift(1, **kw)
+            else:
+                e = pdt.row_number(**kw)
             return t >> pdt.mutate(**{W_NAME: e})
         if v == "mutate":
             return t >> pdt.mutate(**{item.get("name", "e__"): C[item["a"]] + item["k"]})
